@@ -99,13 +99,14 @@ CLASSES = {
     "pygopherd.protocols.spartan.SpartanProtocol": ("spartan", False),
 }
 
-# selector security filter (C01): the six forbidden substrings
+# selector security filter (C01): the six forbidden substrings, and no trailing "." path component
+# (the "./" rule at the end of the selector; documented in isrequestsecure since fix 400a3e8)
 FORBIDDEN = ["./", "..", "//", ".\\", "\\\\", "\0"]
-S_SECURE = C(U(*[CAT(ALL, lit(f), ALL) for f in FORBIDDEN]))
+S_SECURE = C(U(*([CAT(ALL, lit(f), ALL) for f in FORBIDDEN] + [CAT(ALL, lit("/."))])))
 
 
 def p_secure(sel: str) -> bool:
-    return not any(f in sel for f in FORBIDDEN)
+    return not any(f in sel for f in FORBIDDEN) and not sel.endswith("/.")
 
 
 # URL-redirect selectors (C01/C13): ^(/|)URL:.+:// without NUL, LF, TAB, CR, double quote
